@@ -12,6 +12,31 @@ thread_local! {
     static LOOP_HOIST_OFF: Cell<bool> = const { Cell::new(false) };
     static FUSED_BRANCH_OFF: Cell<bool> = const { Cell::new(false) };
     static IC_HITS: Cell<u64> = const { Cell::new(0) };
+    static SHORTCUTS: Cell<[u64; 4]> = const { Cell::new([0; 4]) };
+}
+
+/// Kinds of compiler shortcuts counted by [`shortcut_counts`].
+#[derive(Debug, Clone, Copy)]
+pub(crate) enum Shortcut {
+    LocalRegister = 0,
+    ConstCache = 1,
+    LoopHoist = 2,
+    FusedBranch = 3,
+}
+
+pub(crate) fn count_shortcut(kind: Shortcut) {
+    SHORTCUTS.with(|c| {
+        let mut v = c.get();
+        v[kind as usize] += 1;
+        c.set(v);
+    });
+}
+
+/// How often the compiler took each shortcut on this thread so far:
+/// `[bindings placed in registers, consts cached in registers, hoisted loop operands, fused branches]`.
+#[must_use]
+pub fn shortcut_counts() -> [u64; 4] {
+    SHORTCUTS.with(Cell::get)
 }
 
 /// Make `InlineCache::get` miss and `InlineCache::set` do nothing.
@@ -80,4 +105,187 @@ pub fn vm_depths(context: &Context) -> VmDepths {
         binding_stack: context.vm.frame().binding_stack.len(),
         environments: context.vm.frame().environments.len(),
     }
+}
+
+// ---------------------------------------------------------------------------------------------
+// Code-block dumps and runtime depth samples (structural monitor of compiled code).
+
+use crate::vm::{CodeBlock, Constant, opcode::InstructionIterator};
+use boa_gc::Gc;
+use std::cell::RefCell;
+use std::collections::{HashMap, HashSet};
+
+thread_local! {
+    static DUMP_ON: Cell<bool> = const { Cell::new(false) };
+    static DUMPED: RefCell<HashSet<u64>> = RefCell::new(HashSet::new());
+    static DUMPS: RefCell<Vec<String>> = const { RefCell::new(Vec::new()) };
+    static SAMPLE_ON: Cell<bool> = const { Cell::new(false) };
+    static SAMPLES: RefCell<HashMap<(u64, u32, u32), Vec<[i64; 3]>>> = RefCell::new(HashMap::new());
+    static LAST: RefCell<Vec<Option<(u64, u32, [i64; 3])>>> = const { RefCell::new(Vec::new()) };
+}
+
+/// Record a dump of every code block the first time a frame for it (or for a block that
+/// contains it as a function constant) is pushed.
+pub fn set_dump(on: bool) {
+    DUMP_ON.with(|d| d.set(on));
+}
+
+/// Record, per executed transition `(code block, pc, next pc)` inside one frame, the change of the
+/// depths of the environment stack (relative to the frame), of the binding-reference stack and of
+/// the value stack above the register file.
+pub fn set_depth_sampling(on: bool) {
+    SAMPLE_ON.with(|d| d.set(on));
+}
+
+/// Takes the dumps recorded so far (one JSON document per code block).
+#[must_use]
+pub fn take_dumps() -> Vec<String> {
+    DUMPS.with(|d| std::mem::take(&mut *d.borrow_mut()))
+}
+
+/// Takes the transitions recorded so far: `(block id, pc, next pc, [d_env, d_binding, d_value])`, at
+/// most three distinct observations per transition.
+#[must_use]
+pub fn take_depth_samples() -> Vec<(u64, u32, u32, [i64; 3])> {
+    LAST.with(|l| l.borrow_mut().clear());
+    SAMPLES.with(|s| {
+        let mut out = Vec::new();
+        for ((id, from, to), v) in s.borrow_mut().drain() {
+            for d in v {
+                out.push((id, from, to, d));
+            }
+        }
+        out
+    })
+}
+
+pub(crate) fn on_frame_push(code_block: &Gc<CodeBlock>, new_level: usize) {
+    if DUMP_ON.with(Cell::get) {
+        dump_recursive(code_block);
+    }
+    if SAMPLE_ON.with(Cell::get) {
+        // a new activation starts at this level: forget the previous one's last instruction
+        LAST.with(|l| {
+            let mut l = l.borrow_mut();
+            if l.len() > new_level {
+                l.truncate(new_level);
+            }
+        });
+    }
+}
+
+fn dump_recursive(code_block: &Gc<CodeBlock>) {
+    let fresh = DUMPED.with(|d| d.borrow_mut().insert(code_block.debug_id));
+    if !fresh {
+        return;
+    }
+    let text = dump_code_block(code_block);
+    DUMPS.with(|d| d.borrow_mut().push(text));
+    for constant in &code_block.constants {
+        if let Constant::Function(f) = constant {
+            dump_recursive(f);
+        }
+    }
+}
+
+/// A structural description of a code block as a JSON document.
+#[must_use]
+pub fn dump_code_block(cb: &CodeBlock) -> String {
+    use serde_json::{Value, json};
+    let constants: Vec<Value> = cb
+        .constants
+        .iter()
+        .map(|c| match c {
+            Constant::String(s) => json!({"kind": "string", "len": s.len()}),
+            Constant::Function(f) => json!({"kind": "function", "id": f.debug_id}),
+            Constant::BigInt(_) => json!({"kind": "bigint"}),
+            Constant::Scope(s) => json!({
+                "kind": "scope",
+                "unique_id": s.unique_id(),
+                "index": s.scope_index(),
+                "non_local_bindings": s.num_bindings_non_local(),
+                "bindings": s.num_bindings(),
+                "all_local": s.all_bindings_local(),
+                "function": s.is_function(),
+            }),
+        })
+        .collect();
+    let bindings: Vec<Value> = cb.bindings.iter().map(|b| Value::String(format!("{b:?}"))).collect();
+    let handlers: Vec<Value> = cb
+        .handlers
+        .iter()
+        .map(|h| json!({"start": h.start.as_u32(), "end": h.end.as_u32(), "environment_count": h.environment_count}))
+        .collect();
+    // Decoding walks the byte array instruction by instruction; a stream that does not tile the
+    // array makes the decoder index out of bounds, which is reported instead of propagated.
+    let bytes_len = cb.bytecode.bytes.len();
+    let decoded = std::panic::catch_unwind(std::panic::AssertUnwindSafe(|| {
+        let mut instructions = Vec::new();
+        let mut iter = InstructionIterator::new(&cb.bytecode);
+        while let Some((pc, opcode, instruction)) = iter.next() {
+            instructions.push(json!({
+                "pc": pc,
+                "op": opcode.as_str(),
+                "next": iter.pc(),
+                "args": format!("{instruction:?}"),
+            }));
+        }
+        instructions
+    }));
+    let (instructions, decode_error) = match decoded {
+        Ok(i) => (i, false),
+        Err(_) => (Vec::new(), true),
+    };
+    json!({
+        "id": cb.debug_id,
+        "name": cb.name().to_std_string_escaped(),
+        "flags": cb.flags.get().bits(),
+        "length": cb.length,
+        "parameter_length": cb.parameter_length,
+        "register_count": cb.register_count,
+        "bytes": bytes_len,
+        "decode_error": decode_error,
+        "constants": constants,
+        "bindings": bindings,
+        "handlers": handlers,
+        "ic_count": cb.ic.len(),
+        "instructions": instructions,
+    })
+    .to_string()
+}
+
+pub(crate) fn sample_depths(context: &Context) {
+    if !SAMPLE_ON.with(Cell::get) {
+        return;
+    }
+    let frame = context.vm.frame();
+    let level = context.vm.frames.len();
+    let id = frame.code_block.debug_id;
+    let env = frame.environments.len() as i64 - i64::from(frame.env_fp);
+    let binding = frame.binding_stack.len() as i64;
+    let value = context.vm.stack.verif_len() as i64
+        - i64::from(frame.rp)
+        - i64::from(frame.code_block.register_count);
+    let now = (id, frame.pc, [env, binding, value]);
+    LAST.with(|l| {
+        let mut l = l.borrow_mut();
+        if l.len() <= level {
+            l.resize(level + 1, None);
+        }
+        if let Some((pid, ppc, pd)) = l[level]
+            && pid == id
+        {
+            let delta = [env - pd[0], binding - pd[1], value - pd[2]];
+            SAMPLES.with(|s| {
+                let mut s = s.borrow_mut();
+                let v = s.entry((id, ppc, frame.pc)).or_default();
+                if v.len() < 3 && !v.contains(&delta) {
+                    v.push(delta);
+                }
+            });
+        }
+        l[level] = Some(now);
+        // deeper levels belong to frames that are gone
+        l.truncate(level + 1);
+    });
 }
